@@ -157,8 +157,22 @@ func clip(b []byte) []byte {
 }
 
 func verifyMeta(p *Program, res *Result, m *pdf.MetaInfo) error {
-	if m.Version != Versions[p.Version] {
-		return fmt.Errorf("version: wrote %s, read %s", Versions[p.Version], m.Version)
+	wantVersion := Versions[p.Version]
+	if p.CatVersion > 0 && Versions[p.CatVersion-1] > wantVersion {
+		// a later version in the catalog overrides the header (ISO 32000 7.5.2)
+		wantVersion = Versions[p.CatVersion-1]
+	}
+	if m.Version != wantVersion {
+		return fmt.Errorf("version: header %s, catalog version index %d: read %s, want %s", Versions[p.Version], p.CatVersion, m.Version, wantVersion)
+	}
+	if m.Catalog != nil {
+		var wantCat pdf.Version
+		if p.CatVersion > 0 {
+			wantCat = Versions[p.CatVersion-1]
+		}
+		if m.Catalog.Version != wantCat {
+			return fmt.Errorf("Catalog.Version: wrote %v, read %v", wantCat, m.Catalog.Version)
+		}
 	}
 	v := Versions[p.Version]
 	needID := len(p.ID) > 0 || p.Encrypted() || v >= pdf.V2_0
